@@ -129,6 +129,20 @@ pub fn check(mut ctx: Ctx, replay: Option<J>) -> ! {
         return; // overflowed: C02's business
       }
       crate::util::QUIET.with(|q| q.set(true));
+      // before every fifth number the readers are offered malformed numerals: what a text denotes does not depend on what
+      // was read before it (a reader that keeps an error state would misread the well-formed numerals that follow)
+      if recs.len() % 5 == 2 {
+        let _ = std::panic::catch_unwind(|| {
+          let _ = "12x".parse::<FeelNumber>();
+          let _ = "1.2.3".parse::<FeelNumber>();
+          let _ = Value::try_from_xsd_decimal("4,5");
+          let _ = Value::try_from_xsd_double("1e");
+          let _ = Value::try_from_xsd_integer("7.5.");
+          let scope = Scope::default();
+          let _ = dmntk_feel_parser::parse_expression(&scope, "number(\"1.2.3\", \",\", \".\") + 1e", false).and_then(|n| dmntk_feel_evaluator::evaluate(&scope, &n));
+          let _ = dmntk_feel_parser::parse_expression(&scope, "number(\"1.2.3\", \",\", \".\")", false).and_then(|n| dmntk_feel_evaluator::evaluate(&scope, &n));
+        });
+      }
       let observed = std::panic::catch_unwind(std::panic::AssertUnwindSafe(|| observe(&y, true)));
       crate::util::QUIET.with(|q| q.set(false));
       recs.push(observed.unwrap_or_else(|_| {
@@ -255,7 +269,7 @@ pub fn check(mut ctx: Ctx, replay: Option<J>) -> ! {
   let n = recs.len() as u64;
   ctx.cov("evaluations", json!(n));
   ctx.cov("distinct_nontrivial", json!(n));
-  ctx.cov("rule", json!("one case = one finite number (coefficient pattern x exponent x sign x trailing zeros, or an arithmetic result x/3, x*7), observed through to_string, jsonify, from_str, FEEL literal and xsd:decimal input; every exponent -6176..6111 occurs; all cases are non-trivial (each demands an exact text/value relation)"));
+  ctx.cov("rule", json!("one case = one finite number (coefficient pattern x exponent x sign x trailing zeros, or an arithmetic result x/3, x*7), observed through to_string, jsonify, from_str, FEEL literal and xsd:decimal input (malformed numerals are offered to the same readers in between); every exponent -6176..6111 occurs; all cases are non-trivial (each demands an exact text/value relation)"));
   ctx.sample(json!({"stimulus": stim[stim.len() / 2]}));
   ctx.assume("hook H2 gives the exact value; the hints sent with each text are verified, not trusted, by Trace_C07");
   ctx.finish()
